@@ -55,6 +55,29 @@ def gen_cases(rng, tier):
                 h += ['t700', 'v%s,1,0' % rng.choice('prtg'), 't100', 'q']
                 cases.append({'id': 'c02-bnd-%d' % k, 'cfg': cfg, 'hist': h, 'sub': 'ksim', 'tags': {'mode': 'boundary'}})
                 k += 1
+    # numeric defcfg options at the ends of their range, with the feature they govern in use
+    OPT = [('dynamic-macro-max-presses', ['0', '1', '32767', '32768', '40000', '65535']), ('sequence-timeout', ['1', '65535']),
+           ('rapid-event-delay', ['0', '65535']), ('chords-v2-min-idle', ['5', '65535']), ('dynamic-macro-replay-delay-behaviour', ['constant', 'recorded'])]
+    k = 0
+    for name, vals in OPT:
+        for v in vals:
+            for _ in range(2 if tier == 'quick' else 20):
+                cfg = ('(defcfg %s %s concurrent-tap-hold yes)\n(defsrc a s d f g h j)\n(deflayer l0 x (one-shot 50 lsft) (dynamic-macro-record 1) dynamic-macro-record-stop '
+                       '(dynamic-macro-play 1) sldr (tap-hold 0 30 y lctl))\n(defvirtualkeys v0 z)\n(defseq v0 (x y))\n(defchordsv2 (a s) c 50 all-released ())' % (name, v))
+                h = ['t3', 'd32', 't2', 'u32', 't2']
+                for _ in range(rng.randint(3, 10)):
+                    kk = rng.choice([30, 31, 36, 35])
+                    h += ['d%d' % kk, 't%d' % rng.choice([0, 1, 5, 40]), 'u%d' % kk, 't%d' % rng.choice([0, 2, 30])]
+                h += ['d33', 't2', 'u33', 't5', 'd34', 't2', 'u34', 't400', 'q']
+                cases.append({'id': 'c02-opt-%d' % k, 'cfg': cfg, 'hist': h, 'sub': 'ksim', 'tags': {'mode': 'option-limit', 'option': name}})
+                k += 1
+    # chords v2 actions in every spelling the parser has for them, incl. the transparent key and its unicode aliases (rejected, or safe to run)
+    for a in ['x', '_', '‗', '≝', '(multi ‗ c)', '(fork ≝ c (lsft))', '(multi _ c)', 'XX', '✗', '∅', '•', '(tap-hold 0 50 ‗ y)', 'use-defsrc', '(switch () ≝ break)',
+              '(layer-while-held l0)', 'rpt', '(one-shot 50 _)', '(tap-dance 50 (_ x))', '(macro _ x)']:
+        cfg = '(defcfg concurrent-tap-hold yes)\n(defsrc a s d)\n(deflayer l0 a s d)\n(defchordsv2 (a s) %s 50 all-released ())' % a
+        h = ['t3', 'd30', 'd31', 't60', 'u30', 'u31', 't20', 'd32', 't3', 'u32', 't100', 'q']
+        cases.append({'id': 'c02-chv2act-%d' % k, 'cfg': cfg, 'hist': h, 'sub': 'ksim', 'tags': {'mode': 'chords-v2-action'}})
+        k += 1
     return cases
 
 
